@@ -524,11 +524,8 @@ Definition ops_tuple : list op :=
   [OAct [KKey ka] (AL (LExtend false [JList [JNum 9]])); OCommit; OAct [KKey ka; KIdx (-1)] (AL (LAppend (JNum 10)))].
 
 (* ------------------------------------------------------------------ a value assigned through the Json wrapper: obj.j = Json(v).
-   JsonConverter.validate hands the wrapper to TrackedValue.make, which leaves anything but dict / list alone: the attribute value is the
-   wrapper object and the document inside it is a tree of plain containers (no tag anywhere). *)
-Definition assigned_through_wrapper (v : jv) : state := {| root := wrap None v; dirty := false; dbval := canon v |}.
-
-Lemma json_wrapper_lost :
-  let st := run wr_gen [OAct [KKey ka] (AL (LAppend (JNum 3)))] (assigned_through_wrapper doc1) in
-  dirty st = false /\ jv_eqb (dbval (commit st)) (canon (untrack (root st))) = false.
-Proof. vm_compute. split; reflexivity. Qed.
+   Since fix 50830fa JsonConverter.validate unwraps it first, so the stored value is TrackedValue.make of the wrapped document:
+   the same state as any other assignment, covered by the statements above. *)
+Definition assigned_through_wrapper (o : owner) (v : jv) (old : jv) : state := {| root := wrap (Some o) v; dirty := true; dbval := old |}.
+Lemma wrapper_assignment_inv o v old : well_tracked (assigned_through_wrapper o v old) /\ synced (assigned_through_wrapper o v old).
+Proof. split; [exists o; apply tagged_wrap | now left]. Qed.
